@@ -133,6 +133,9 @@ Definition mk_func (ret : ctype) (args : list ctype) (ell : bool) : option ctype
     | _ => match size_ct ret with None => true | Some _ => false end
     end in
   if bad_result then None
+  (* a parameter of type void is refused for every signature (loop before fb_prepare_ctype, commit
+     ce8c84e), also when fb_prepare_cif is skipped (variadic) or gives up (complex/union result) *)
+  else if existsb (fun a => match a with CVoid => true | _ => false end) args then None
   else if negb ell && negb (cif_check ((true, ret) :: map (fun a => (false, a)) args)) then None
   else Some (CFunc ret (map decay_array_arg args) ell).
 
